@@ -64,7 +64,7 @@ pub fn spec_for(prop: &str) -> Option<CheckSpec> {
                 Part { scen: &NEST, quick: 300_000, thorough: 4_000_000 },
                 Part { scen: &CORPUS, quick: 18, thorough: 1_800 },
             ],
-            rule: "one case = (byte string, switches, reader flavour, source kind, chunking, faults, end-of-stream point); distinct = distinct Plan hash x end-of-stream point; non-trivial = the run produced at least one event or error before Eof",
+            rule: "one case = (byte string, switches, reader flavour, source kind, chunking, faults, end-of-stream point, sticky or not: half of the early ends are followed by the rest of the document on later refills); distinct = distinct Plan hash x end-of-stream point; non-trivial = the run produced at least one event or error before Eof",
             assumptions: vec![
                 "panic attribution: a panic whose location is outside /verif/sim is charged to the library",
                 "budgets: reads to Eof <= 2*len+4; source calls <= 12*len + faults + 128; wall-clock watchdog 30 s + 1 s per 5 KB per plan",
@@ -158,7 +158,7 @@ pub fn spec_for(prop: &str) -> Option<CheckSpec> {
             prop: "C09",
             level: "exploration",
             parts: vec![Part { scen: &PIPE, quick: 1_500_000, thorough: 50_000_000 }],
-            rule: "one case = (sequence of <= 12 builder calls with in-place edits and markup-heavy payloads; a tag starts as BytesStart::new, BytesStart::from_content (owned/borrowed), a Start event handed out by a Reader, or template.borrow(); indentation or none, pipe capacity, per-call accepted lengths, write/read Pending patterns, reader piece sizes, executor choice stream, optional write-error point); writer task and reader task run interleaved over the simulated pipe; distinct = Plan hash; non-trivial = the reader task found the pipe empty while the writer was not finished (an event was only partly delivered) AND at least one short write or back-pressure Pending occurred, or a write error was injected",
+            rule: "one case = (sequence of <= 12 builder calls with in-place edits and markup-heavy payloads; a tag starts as BytesStart::new, BytesStart::from_content (owned/borrowed), a Start event handed out by a Reader, or template.borrow(); indentation or none, pipe capacity, per-call accepted lengths, write/read Pending patterns, reader piece sizes, executor choice stream, optional write-error point); the sync writer is also run over a sink that accepts a few bytes per write / native write_vectored call with Interrupted in between (bytes must equal the Vec output); writer task and reader task run interleaved over the simulated pipe; distinct = Plan hash; non-trivial = the reader task found the pipe empty while the writer was not finished (an event was only partly delivered) AND at least one short write or back-pressure Pending occurred, or a write error was injected",
             assumptions: vec![
                 "preconditions of the constructors are enforced by predicates on the final strings (names legal, PI without '?>', comment without '--', doctype non-empty/balanced, CDATA::new without ']]>')",
                 "read-back equality is checked without indentation only; with indentation only byte equality async == sync is checked (that part of C19 lives in the async copy of the writer table)",
